@@ -125,6 +125,28 @@ def structure_case(p, res):
                         continue
                     D = pol.served
                     res.ev(1, nontrivial=1 if nb > 1 else 0, transitions=1)
+                    # ---------- (c) without the seam: every call consumes fresh randomness (two calls without reseeding differ in every block, on the
+                    # same object and on a fresh one; the same seed replays the same gains)
+                    if T in (1, L) and shape in ((L,), (3, L)):
+                        try:
+                            torch.manual_seed(4242)
+                            g1 = ch(x, noise=zz).reshape(B, n) / x.reshape(B, n).to(torch.complex64)
+                            g2 = ch(x, noise=zz).reshape(B, n) / x.reshape(B, n).to(torch.complex64)
+                            g3 = make(ft, par, how, T, avg_noise_power=0.2)(x, noise=zz).reshape(B, n) / x.reshape(B, n).to(torch.complex64)
+                            torch.manual_seed(4242)
+                            g4 = ch(x, noise=zz).reshape(B, n) / x.reshape(B, n).to(torch.complex64)
+                            res.ev(3, nontrivial=3, transitions=4)
+                            same12 = int(((g1 - g2).abs() < 1e-7).sum())
+                            same13 = int(((g1 - g3).abs() < 1e-7).sum())
+                            if same12 or same13:
+                                v("private-draws", f"two calls without reseeding share gains: {same12} of {B * n} samples identical on the same channel object, {same13} on a fresh object (T={T})")
+                            if not torch.equal(g1, g4):
+                                v("private-draws", "the same seed does not replay the same gains")
+                        except Exception as e:  # noqa: BLE001
+                            v("raises", f"repeated calls: {type(e).__name__}: {str(e)[:160]}")
+                    if pol.bypassed:
+                        res.seam_bypassed += 1      # the channel names its own torch.Generator: the answer-perturbation clauses cannot be driven
+                        continue
                     if tuple(h0.shape) != (B, n):
                         v("shape", f"output shape mismatch {tuple(h0.shape)}")
                         continue
